@@ -1,6 +1,8 @@
 (* C01 - encoding a seed and decoding the phrase gives back the same seed. *)
 From PS Require Import Base PackDefs ApiDefs SpecDefs SpecApi PackProofs PackTheorems ApiLemmas RefineProofs
   ApiTheorems RoundTrip.
+From PS Require Import GFProofs CTiePack.
+From PS.Gen Require CFuns.
 From PS.Gen Require Import Consts Langs.
 Local Open Scope N_scope.
 
@@ -58,3 +60,18 @@ Theorem C01_unpack_pack : forall d, Canon d ->
              (forall ck, poly_to_data_full (ck :: ws) = Some (set_ck d ck, true)).
 Proof. exact canon_pack. Qed.
 Print Assumptions C01_unpack_pack.
+
+(* ---- the tie to the code: both packing functions as TRANSLATED from /repo's current gf.c on this
+   run (Gen/CFuns.v) are the ones the round trip above is about *)
+Theorem C01_code_tie_pack : forall d poly, Canon d -> length poly = 16%nat ->
+  CFuns.polyseed_data_to_poly (Z.of_N (d_birthday d)) (Z.of_N (d_features d)) (map Z.of_N (d_secret d)) (map Z.of_N poly)
+  = map Z.of_N (hd 0 poly :: spec_data_words (abs_data d)).
+Proof. exact tie_data_to_poly. Qed.
+Print Assumptions C01_code_tie_pack.
+
+Theorem C01_code_tie_unpack : forall c sec d, length c = 16%nat -> wf (tl c) -> hd 0 c < 2 ^ 64 ->
+  poly_to_data_full c = Some (d, true) ->
+  CFuns.polyseed_poly_to_data (map Z.of_N c) sec =
+  (Z.of_N (d_birthday d), Z.of_N (d_features d), map Z.of_N (d_secret d), Z.of_N (d_checksum d)).
+Proof. exact tie_poly_to_data. Qed.
+Print Assumptions C01_code_tie_unpack.
